@@ -312,6 +312,22 @@ def check_copies(ctx):
                         b = src(base)
                         if b not in local_ok:
                             problems.append('store into %s, which is not a local copy or a locally allocated array (%s)' % (b, sl.loc(n)))
+        # arrays handed out by the interface (not copied, not a fresh sum) are shared with the model: no in-place arithmetic on them
+        shared = set()
+        for n in ast.walk(sl.f):
+            if isinstance(n, ast.Assign) and len(n.targets) == 1 and isinstance(n.targets[0], ast.Name) and n.targets[0].id not in local_ok:
+                v = src(util.strip_cast(n.value)).replace(' ', '')
+                if v.startswith('sim.get_') or v.startswith('sim.py_get_') or v in shared:
+                    shared.add(n.targets[0].id)
+        for n in ast.walk(sl.f):
+            if isinstance(n, ast.AugAssign) and isinstance(n.target, ast.Name) and n.target.id in shared:
+                problems.append('in-place `%s` on %s, an array shared with the interface and the model (%s)' % (util.stmt_key(n)[:60], n.target.id, sl.loc(n)))
+            if isinstance(n, ast.Call):
+                for kw in n.keywords:
+                    if kw.arg == 'out' and src(kw.value) in shared:
+                        problems.append('`%s` writes into the shared array %s' % (src(n)[:60], src(kw.value)))
+                if isinstance(n.func, ast.Attribute) and src(n.func.value) in shared and n.func.attr in ('fill', 'sort', 'resize', 'put', 'itemset', 'partition', 'setfield'):
+                    problems.append('`%s` modifies the shared array %s' % (src(n)[:60], src(n.func.value)))
         calls = [c for c in ast.walk(sl.f) if isinstance(c, ast.Call) and isinstance(c.func, ast.Attribute) and src(c.func.value) == 'sim'
                  and c.func.attr in ('set_initial_state', 'py_set_initial_state', 'set_param_values', 'py_set_param_values')]
         if calls:
